@@ -15,6 +15,7 @@ From JB Require Import EditWalk2.
 From JB Require Import ContainWalk.
 From JB Require Import SetWalk.
 From JB Require Import ChainWalk.
+From JB Require Import NumOrd.
 Extraction Language OCaml.
 Extraction "model.ml"
   to_vec write_to_vec enc parse_jsonb is_jsonb assoc_insert compact_encode num_decode num_decode_old num_cmp
@@ -36,4 +37,5 @@ Extraction "model.ml"
   delete_by_index_w array_insert_w build_array_w build_object_w build_array_st build_object_st object_insert_w
   object_delete_w object_pick_w strip_nulls_w delete_by_keypath_w contains_w array_distinct_w array_intersection_w
   array_except_w array_overlap_w key_safe_doc
+  num_cmp_rs_res num_eqb_rs_res num_cmp_rs num_eqb_rs
   run_b.
